@@ -47,6 +47,8 @@ pub struct PrinterObj {
 #[derive(Clone, Debug, PartialEq)]
 pub enum EvalError {
     Unbound(String),
+    /// a standard Guile / R5RS name the model does not implement: the run cannot be decided
+    Unmodelled(String),
     Arity(String),
     Type(String),
     Format(String),
@@ -59,6 +61,7 @@ impl std::fmt::Display for EvalError {
     fn fmt(&self, f: &mut std::fmt::Formatter) -> std::fmt::Result {
         match self {
             EvalError::Unbound(s) => write!(f, "Unbound variable: {}", s),
+            EvalError::Unmodelled(s) => write!(f, "the model runtime does not implement the standard procedure or form `{}`", s),
             EvalError::Arity(s) => write!(f, "Wrong number of arguments: {}", s),
             EvalError::Type(s) => write!(f, "Wrong type argument: {}", s),
             EvalError::Format(s) => write!(f, "format: {}", s),
@@ -75,7 +78,7 @@ type R = Result<V, EvalError>;
 pub struct Env(Option<Rc<Frame>>);
 pub struct Frame {
     name: String,
-    val: V,
+    val: std::cell::RefCell<V>,
     parent: Env,
 }
 
@@ -84,13 +87,25 @@ impl Env {
         Env(None)
     }
     pub fn bind(&self, name: &str, val: V) -> Env {
-        Env(Some(Rc::new(Frame { name: name.to_string(), val, parent: self.clone() })))
+        Env(Some(Rc::new(Frame { name: name.to_string(), val: std::cell::RefCell::new(val), parent: self.clone() })))
+    }
+    /// Overwrite the innermost binding of `name` (letrec / internal define initialisation).
+    pub fn set(&self, name: &str, val: V) -> bool {
+        let mut cur = &self.0;
+        while let Some(f) = cur {
+            if f.name == name {
+                *f.val.borrow_mut() = val;
+                return true;
+            }
+            cur = &f.parent.0;
+        }
+        false
     }
     pub fn get(&self, name: &str) -> Option<V> {
         let mut cur = &self.0;
         while let Some(f) = cur {
             if f.name == name {
-                return Some(f.val.clone());
+                return Some(f.val.borrow().clone());
             }
             cur = &f.parent.0;
         }
@@ -314,7 +329,33 @@ const PRIMS: &[&str] = &[
     "print-relative-path", "print-absolute-path", "print-file-fid", "lipe-scan", "lipe-scan-break", "lipe-getopt-client-mount-path",
     "lipe-getopt-required-attrs", "lipe-getopt-thread-count", "lipe-scan-client-mount-path", "empty", "readable", "writable", "executable",
     "lock-mutex", "unlock-mutex", "list", "force-output", "put-u8", "put-char", "put-string", "write-char", "write-string", "integer->char", "char->integer",
-    "simple-format",
+    "simple-format", "zero?", "positive?", "negative?", "even?", "odd?", "1+", "1-", "min", "max", "abs", "eq?", "eqv?", "null?", "pair?", "list?", "car", "cdr", "cons", "cadr", "length",
+    "append", "reverse", "list-ref", "memq", "memv", "assoc", "assq", "assv", "string?", "number?", "integer?", "boolean?", "char?", "procedure?", "string-length", "string-upcase",
+    "string-downcase", "string-prefix?", "string-suffix?", "string-contains", "substring", "string-ref", "string-null?", "string<?", "char=?", "apply", "map", "for-each", "expt", "ash", "logxor",
+    "lognot", "logtest", "identity", "const", "string->number", "string-join", "number->string/pad",
+];
+
+/// Standard Guile / R5RS / SRFI names the model does not implement: meeting one makes the run
+/// inconclusive (the model cannot decide), not a violation.
+pub const KNOWN_UNMODELLED: &[&str] = &[
+    "set!", "do", "delay", "force", "call/cc", "call-with-current-continuation", "values", "call-with-values", "receive", "define-syntax", "let-syntax", "syntax-rules", "quasiquote", "unquote",
+    "let-values", "let*-values", "case-lambda", "lambda*", "define*", "parameterize", "make-parameter", "fluid-let", "with-fluids", "catch", "throw", "error", "with-exception-handler", "raise",
+    "assert", "vector", "make-vector", "vector-ref", "vector-set!", "vector-length", "vector->list", "list->vector", "make-string", "string-set!", "string-copy", "string-fill!", "string->list",
+    "list->string", "string->symbol", "symbol->string", "symbol?", "string-split", "string-trim", "string-trim-both", "string-trim-right", "string-pad", "string-pad-right", "string-index",
+    "string-rindex", "string-map", "string-for-each", "string-fold", "string-concatenate", "string-reverse", "string-take", "string-drop", "string-count", "string-tokenize", "string-filter",
+    "string-delete", "string-replace", "string-ci=?", "string>?", "string<=?", "string>=?", "char<?", "char>?", "char-upcase", "char-downcase", "char-alphabetic?", "char-numeric?", "char-whitespace?",
+    "exact->inexact", "inexact->exact", "exact", "inexact", "round", "floor", "ceiling", "truncate", "floor/", "truncate/", "floor-quotient", "euclidean/", "sqrt", "exp", "log", "sin", "cos",
+    "number?", "real?", "rational?", "exact?", "inexact?", "nan?", "gcd", "lcm", "numerator", "denominator", "bit-extract", "logbit?", "logcount", "integer-length", "arithmetic-shift",
+    "filter", "filter-map", "fold", "fold-right", "reduce", "any", "every", "find", "find-tail", "delete", "delete-duplicates", "remove", "partition", "iota", "last", "last-pair", "list-tail",
+    "list-head", "list-copy", "sort", "assoc-ref", "assq-ref", "assv-ref", "acons", "hash-ref", "hash-set!", "make-hash-table", "hashq-ref", "hashq-set!", "caar", "cddr", "cdar", "caddr",
+    "set-car!", "set-cdr!", "call-with-output-string", "with-output-to-string", "call-with-input-string", "open-output-string", "get-output-string", "open-input-string", "read", "write", "write-line",
+    "read-line", "peek-char", "read-char", "eof-object?", "current-error-port", "current-input-port", "with-output-to-port", "port?", "output-port?", "flush-all-ports", "setvbuf", "set-port-encoding!",
+    "make-condition-variable", "wait-condition-variable", "signal-condition-variable", "broadcast-condition-variable", "make-recursive-mutex", "try-mutex", "mutex-locked?", "monitor",
+    "call-with-new-thread", "join-thread", "current-thread", "yield", "par-map", "par-for-each", "n-par-map", "future", "touch", "make-thread", "begin-thread", "with-mutex*", "atomic-box-ref",
+    "gettimeofday", "current-time", "gmtime", "mktime", "strptime", "getenv", "getpid", "getuid", "getcwd", "system", "exit", "quit", "sleep", "usleep", "stat", "stat:size", "stat:mode", "stat:mtime",
+    "file-exists?", "delete-file", "rename-file", "mkdir", "opendir", "readdir", "closedir", "getpwuid", "getpwnam", "getgrgid", "passwd:name", "group:name", "regexp-exec", "make-regexp", "string-match",
+    "regexp-match?", "match:substring", "object->string", "symbol-append", "gensym", "void", "noop", "unspecified?", "defined?", "eval", "primitive-eval", "load", "include", "module-ref", "resolve-module", "@", "@@",
+    "call-with-port", "dynamic-unwind", "bytevector-u8-ref", "put-bytevector", "string->utf8", "utf8->string", "char-ready?", "truncate-quotient", "exact-integer?", "list-index", "first", "second", "third",
 ];
 
 fn prim_name(name: &str) -> Option<&'static str> {
@@ -357,7 +398,13 @@ impl Interp {
                 }
                 match prim_name(name) {
                     Some(p) => Ok(V::Prim(p)),
-                    None => Err(EvalError::Unbound(name.clone())),
+                    None => {
+                        if KNOWN_UNMODELLED.contains(&name.as_str()) {
+                            Err(EvalError::Unmodelled(name.clone()))
+                        } else {
+                            Err(EvalError::Unbound(name.clone()))
+                        }
+                    }
                 }
             }
             Sx::List(items) => {
@@ -429,6 +476,56 @@ impl Interp {
                                 return Ok(V::Unspec);
                             }
                             "begin" => return self.eval_body(&items[1..], env),
+                            "cond" => {
+                                for clause in &items[1..] {
+                                    let c = match clause {
+                                        Sx::List(c) if !c.is_empty() => c,
+                                        _ => return Err(EvalError::Other("bad cond clause".into())),
+                                    };
+                                    if c[0].sym() == Some("else") {
+                                        return self.eval_body(&c[1..], env);
+                                    }
+                                    let t = self.eval(&c[0], env)?;
+                                    if truthy(&t) {
+                                        if c.len() == 1 {
+                                            return Ok(t);
+                                        }
+                                        if c[1].sym() == Some("=>") {
+                                            if c.len() != 3 {
+                                                return Err(EvalError::Other("bad cond => clause".into()));
+                                            }
+                                            let f = self.eval(&c[2], env)?;
+                                            return self.apply(&f, vec![t]);
+                                        }
+                                        return self.eval_body(&c[1..], env);
+                                    }
+                                }
+                                return Ok(V::Unspec);
+                            }
+                            "case" => {
+                                if items.len() < 2 {
+                                    return Err(EvalError::Other("bad case".into()));
+                                }
+                                let key = self.eval(&items[1], env)?;
+                                for clause in &items[2..] {
+                                    let c = match clause {
+                                        Sx::List(c) if !c.is_empty() => c,
+                                        _ => return Err(EvalError::Other("bad case clause".into())),
+                                    };
+                                    let hit = if c[0].sym() == Some("else") {
+                                        true
+                                    } else {
+                                        match &c[0] {
+                                            Sx::List(ds) => ds.iter().any(|d| equal(&quote(d), &key)),
+                                            _ => return Err(EvalError::Other("bad case datum list".into())),
+                                        }
+                                    };
+                                    if hit {
+                                        return self.eval_body(&c[1..], env);
+                                    }
+                                }
+                                return Ok(V::Unspec);
+                            }
                             "quote" => {
                                 if items.len() != 2 {
                                     return Err(EvalError::Other("bad quote".into()));
@@ -450,8 +547,8 @@ impl Interp {
                                 u?;
                                 return Ok(v);
                             }
-                            "define" | "set!" | "use-modules" => {
-                                return Err(EvalError::Other(format!("{} not expected inside a generated policy", h)));
+                            "define" | "use-modules" => {
+                                return Err(EvalError::Other(format!("{} not expected in expression position of a generated policy", h)));
                             }
                             _ => {}
                         }
@@ -469,8 +566,34 @@ impl Interp {
 
     fn eval_body(&mut self, body: &[Sx], env: &Env) -> R {
         let mut last = V::Unspec;
+        let mut env = env.clone();
         for e in body {
-            last = self.eval(e, env)?;
+            // internal definitions: (define name expr) / (define (name . formals) body...)
+            if e.head() == Some("define") && env.get("define").is_none() {
+                let l = e.list().unwrap();
+                if l.len() < 3 {
+                    return Err(EvalError::Other("bad define".into()));
+                }
+                match &l[1] {
+                    Sx::Sym(n) => {
+                        env = env.bind(n, V::Unspec);
+                        let v = self.eval(&l[2], &env)?;
+                        env.set(n, v);
+                    }
+                    Sx::List(sig) if !sig.is_empty() => {
+                        let n = sig[0].sym().ok_or_else(|| EvalError::Other("bad define".into()))?.to_string();
+                        let mut lam = vec![Sx::Sym("lambda".into()), Sx::List(sig[1..].to_vec())];
+                        lam.extend(l[2..].iter().cloned());
+                        env = env.bind(&n, V::Unspec);
+                        let v = self.eval(&Sx::List(lam), &env)?;
+                        env.set(&n, v);
+                    }
+                    _ => return Err(EvalError::Other("bad define".into())),
+                }
+                last = V::Unspec;
+                continue;
+            }
+            last = self.eval(e, &env)?;
         }
         Ok(last)
     }
@@ -478,6 +601,44 @@ impl Interp {
     fn eval_let(&mut self, kind: &str, items: &[Sx], env: &Env) -> R {
         if items.len() < 3 {
             return Err(EvalError::Other(format!("bad {}", kind)));
+        }
+        // named let: (let loop ((v init) ...) body...)
+        if kind == "let" {
+            if let Sx::Sym(name) = &items[1] {
+                if items.len() < 4 {
+                    return Err(EvalError::Other("bad named let".into()));
+                }
+                let binds = items[2].list().ok_or_else(|| EvalError::Other("bad named let".into()))?;
+                let mut params = vec![];
+                let mut inits = vec![];
+                for b in binds {
+                    let p = b.list().filter(|p| p.len() == 2).ok_or_else(|| EvalError::Other("bad named let binding".into()))?;
+                    params.push(p[0].clone());
+                    inits.push(self.eval(&p[1], env)?);
+                }
+                let mut lam = vec![Sx::Sym("lambda".into()), Sx::List(params)];
+                lam.extend(items[3..].iter().cloned());
+                let inner = env.bind(name, V::Unspec);
+                let f = self.eval(&Sx::List(lam), &inner)?;
+                inner.set(name, f.clone());
+                return self.apply(&f, inits);
+            }
+        }
+        if kind == "letrec" {
+            let binds = items[1].list().ok_or_else(|| EvalError::Other("bad letrec".into()))?;
+            let mut inner = env.clone();
+            let mut names = vec![];
+            for b in binds {
+                let p = b.list().filter(|p| p.len() == 2).ok_or_else(|| EvalError::Other("bad letrec binding".into()))?;
+                let n = p[0].sym().ok_or_else(|| EvalError::Other("bad letrec binding".into()))?.to_string();
+                inner = inner.bind(&n, V::Unspec);
+                names.push((n, p[1].clone()));
+            }
+            for (n, init) in names {
+                let v = self.eval(&init, &inner)?;
+                inner.set(&n, v);
+            }
+            return self.eval_body(&items[2..], &inner);
         }
         let binds = match &items[1] {
             Sx::List(b) => b,
@@ -1089,6 +1250,271 @@ impl Interp {
                 Self::arity(name, a, 0, 0)?;
                 Ok(V::Bool(self.w.rec()?.executable))
             }
+            "zero?" | "positive?" | "negative?" | "even?" | "odd?" => {
+                Self::arity(name, a, 1, 1)?;
+                let (n, d) = Self::num(&a[0], name)?;
+                Ok(V::Bool(match name {
+                    "zero?" => n == 0,
+                    "positive?" => n > 0,
+                    "negative?" => n < 0,
+                    "even?" => d == 1 && n % 2 == 0,
+                    _ => d == 1 && n % 2 != 0,
+                }))
+            }
+            "1+" | "1-" => {
+                Self::arity(name, a, 1, 1)?;
+                let i = Self::int(&a[0], name)?;
+                Ok(V::Int(if name == "1+" { i + 1 } else { i - 1 }))
+            }
+            "min" | "max" | "abs" => {
+                if a.is_empty() {
+                    return Err(EvalError::Arity(name.into()));
+                }
+                let mut acc = Self::int(&a[0], name)?;
+                if name == "abs" {
+                    Self::arity(name, a, 1, 1)?;
+                    return Ok(V::Int(acc.abs()));
+                }
+                for v in &a[1..] {
+                    let i = Self::int(v, name)?;
+                    acc = if name == "min" { acc.min(i) } else { acc.max(i) };
+                }
+                Ok(V::Int(acc))
+            }
+            "eq?" | "eqv?" => {
+                Self::arity(name, a, 2, 2)?;
+                Ok(V::Bool(match (&a[0], &a[1]) {
+                    (V::Str(x), V::Str(y)) => Rc::ptr_eq(x, y),
+                    (V::List(x), V::List(y)) => Rc::ptr_eq(x, y) || (x.is_empty() && y.is_empty()),
+                    (V::Lambda(x), V::Lambda(y)) => Rc::ptr_eq(x, y),
+                    (x, y) => equal(x, y),
+                }))
+            }
+            "null?" | "pair?" | "list?" | "string?" | "number?" | "integer?" | "boolean?" | "char?" | "procedure?" => {
+                Self::arity(name, a, 1, 1)?;
+                Ok(V::Bool(match (name, &a[0]) {
+                    ("null?", V::List(l)) => l.is_empty(),
+                    ("pair?", V::List(l)) => !l.is_empty(),
+                    ("list?", V::List(_)) => true,
+                    ("string?", V::Str(_)) => true,
+                    ("number?", V::Int(_) | V::Rat(_, _)) => true,
+                    ("integer?", V::Int(_)) => true,
+                    ("boolean?", V::Bool(_)) => true,
+                    ("char?", V::Char(_)) => true,
+                    ("procedure?", V::Lambda(_) | V::Prim(_) | V::Printer(_)) => true,
+                    _ => false,
+                }))
+            }
+            "car" | "cdr" | "cadr" | "length" | "reverse" => {
+                Self::arity(name, a, 1, 1)?;
+                let l = match &a[0] {
+                    V::List(l) => l.clone(),
+                    other => return Err(EvalError::Type(format!("{}: not a list: {}", name, display_string(other)))),
+                };
+                match name {
+                    "car" => l.first().cloned().ok_or_else(|| EvalError::Type("car of ()".into())),
+                    "cadr" => l.get(1).cloned().ok_or_else(|| EvalError::Type("cadr of a short list".into())),
+                    "cdr" => {
+                        if l.is_empty() {
+                            Err(EvalError::Type("cdr of ()".into()))
+                        } else {
+                            Ok(V::List(Rc::new(l[1..].to_vec())))
+                        }
+                    }
+                    "length" => Ok(V::Int(l.len() as i128)),
+                    _ => Ok(V::List(Rc::new(l.iter().rev().cloned().collect()))),
+                }
+            }
+            "cons" => {
+                Self::arity(name, a, 2, 2)?;
+                match &a[1] {
+                    V::List(l) => {
+                        let mut v = vec![a[0].clone()];
+                        v.extend(l.iter().cloned());
+                        Ok(V::List(Rc::new(v)))
+                    }
+                    _ => Err(EvalError::Unmodelled("cons (improper list)".into())),
+                }
+            }
+            "append" => {
+                let mut v = vec![];
+                for x in a {
+                    match x {
+                        V::List(l) => v.extend(l.iter().cloned()),
+                        other => return Err(EvalError::Type(format!("append: not a list: {}", display_string(other)))),
+                    }
+                }
+                Ok(V::List(Rc::new(v)))
+            }
+            "list-ref" => {
+                Self::arity(name, a, 2, 2)?;
+                let i = Self::int(&a[1], name)?;
+                match &a[0] {
+                    V::List(l) if i >= 0 && (i as usize) < l.len() => Ok(l[i as usize].clone()),
+                    _ => Err(EvalError::Type("list-ref: out of range".into())),
+                }
+            }
+            "memq" | "memv" => {
+                Self::arity(name, a, 2, 2)?;
+                match &a[1] {
+                    V::List(l) => {
+                        for (i, x) in l.iter().enumerate() {
+                            if equal(&a[0], x) && !matches!(x, V::Str(_)) {
+                                return Ok(V::List(Rc::new(l[i..].to_vec())));
+                            }
+                        }
+                        Ok(V::Bool(false))
+                    }
+                    other => Err(EvalError::Type(format!("{}: not a list: {}", name, display_string(other)))),
+                }
+            }
+            "assoc" | "assq" | "assv" => {
+                Self::arity(name, a, 2, 2)?;
+                match &a[1] {
+                    V::List(l) => {
+                        for x in l.iter() {
+                            if let V::List(p) = x {
+                                if let Some(k) = p.first() {
+                                    if equal(&a[0], k) {
+                                        return Ok(x.clone());
+                                    }
+                                }
+                            }
+                        }
+                        Ok(V::Bool(false))
+                    }
+                    other => Err(EvalError::Type(format!("{}: not a list: {}", name, display_string(other)))),
+                }
+            }
+            "string-length" | "string-upcase" | "string-downcase" | "string-null?" => {
+                Self::arity(name, a, 1, 1)?;
+                let st = Self::string(&a[0], name)?;
+                Ok(match name {
+                    "string-length" => V::Int(st.chars().count() as i128),
+                    "string-upcase" => s(&st.to_uppercase()),
+                    "string-downcase" => s(&st.to_lowercase()),
+                    _ => V::Bool(st.is_empty()),
+                })
+            }
+            "string-prefix?" | "string-suffix?" | "string-contains" | "string<?" => {
+                Self::arity(name, a, 2, 2)?;
+                let x = Self::string(&a[0], name)?;
+                let y = Self::string(&a[1], name)?;
+                Ok(match name {
+                    "string-prefix?" => V::Bool(y.starts_with(x.as_str())),
+                    "string-suffix?" => V::Bool(y.ends_with(x.as_str())),
+                    "string<?" => V::Bool(*x < *y),
+                    _ => match x.find(y.as_str()) {
+                        Some(b) => V::Int(x[..b].chars().count() as i128),
+                        None => V::Bool(false),
+                    },
+                })
+            }
+            "substring" => {
+                Self::arity(name, a, 2, 3)?;
+                let st = Self::string(&a[0], name)?;
+                let cs: Vec<char> = st.chars().collect();
+                let from = Self::int(&a[1], name)?;
+                let to = if a.len() == 3 { Self::int(&a[2], name)? } else { cs.len() as i128 };
+                if from < 0 || to < from || to as usize > cs.len() {
+                    return Err(EvalError::Type("substring: out of range".into()));
+                }
+                Ok(s(&cs[from as usize..to as usize].iter().collect::<String>()))
+            }
+            "string-ref" => {
+                Self::arity(name, a, 2, 2)?;
+                let st = Self::string(&a[0], name)?;
+                let i = Self::int(&a[1], name)?;
+                st.chars().nth(i.max(0) as usize).map(V::Char).ok_or_else(|| EvalError::Type("string-ref: out of range".into()))
+            }
+            "char=?" => {
+                Self::arity(name, a, 2, 2)?;
+                match (&a[0], &a[1]) {
+                    (V::Char(x), V::Char(y)) => Ok(V::Bool(x == y)),
+                    _ => Err(EvalError::Type("char=?: not characters".into())),
+                }
+            }
+            "string->number" => {
+                Self::arity(name, a, 1, 2)?;
+                let st = Self::string(&a[0], name)?;
+                Ok(st.parse::<i128>().map(V::Int).unwrap_or(V::Bool(false)))
+            }
+            "string-join" => {
+                Self::arity(name, a, 1, 2)?;
+                let sep = if a.len() == 2 { Self::string(&a[1], name)?.to_string() } else { " ".to_string() };
+                match &a[0] {
+                    V::List(l) => {
+                        let mut parts = vec![];
+                        for x in l.iter() {
+                            parts.push(Self::string(x, name)?.to_string());
+                        }
+                        Ok(s(&parts.join(&sep)))
+                    }
+                    other => Err(EvalError::Type(format!("string-join: not a list: {}", display_string(other)))),
+                }
+            }
+            "expt" | "ash" | "logxor" => {
+                Self::arity(name, a, 2, 2)?;
+                let x = Self::int(&a[0], name)?;
+                let y = Self::int(&a[1], name)?;
+                Ok(V::Int(match name {
+                    "expt" => {
+                        if !(0..=126).contains(&y) {
+                            return Err(Self::ovf(name));
+                        }
+                        x.checked_pow(y as u32).ok_or_else(|| Self::ovf(name))?
+                    }
+                    "ash" => {
+                        if y >= 0 {
+                            if y > 100 {
+                                return Err(Self::ovf(name));
+                            }
+                            x.checked_shl(y as u32).ok_or_else(|| Self::ovf(name))?
+                        } else {
+                            x >> (-y).min(127)
+                        }
+                    }
+                    _ => x ^ y,
+                }))
+            }
+            "lognot" => {
+                Self::arity(name, a, 1, 1)?;
+                Ok(V::Int(!Self::int(&a[0], name)?))
+            }
+            "logtest" => {
+                Self::arity(name, a, 2, 2)?;
+                Ok(V::Bool(Self::int(&a[0], name)? & Self::int(&a[1], name)? != 0))
+            }
+            "identity" => {
+                Self::arity(name, a, 1, 1)?;
+                Ok(a[0].clone())
+            }
+            "apply" => {
+                if a.len() < 2 {
+                    return Err(EvalError::Arity("apply".into()));
+                }
+                let mut args2: Vec<V> = a[1..a.len() - 1].to_vec();
+                match &a[a.len() - 1] {
+                    V::List(l) => args2.extend(l.iter().cloned()),
+                    other => return Err(EvalError::Type(format!("apply: last argument is not a list: {}", display_string(other)))),
+                }
+                let f = a[0].clone();
+                self.apply(&f, args2)
+            }
+            "map" | "for-each" => {
+                Self::arity(name, a, 2, 2)?;
+                let f = a[0].clone();
+                let l = match &a[1] {
+                    V::List(l) => l.clone(),
+                    other => return Err(EvalError::Type(format!("{}: not a list: {}", name, display_string(other)))),
+                };
+                let mut out = vec![];
+                for x in l.iter() {
+                    out.push(self.apply(&f, vec![x.clone()])?);
+                }
+                Ok(if name == "map" { V::List(Rc::new(out)) } else { V::Unspec })
+            }
+            "const" | "number->string/pad" => Err(EvalError::Unmodelled(name.to_string())),
             "lipe-scan" => self.lipe_scan(a),
             other => Err(EvalError::Unbound(other.to_string())),
         }
@@ -1262,4 +1688,43 @@ pub fn merge_outs(outs: Vec<(Dest, String)>) -> Vec<(Dest, String)> {
         }
     }
     res
+}
+
+#[cfg(test)]
+mod tests {
+    use super::*;
+    use crate::sexp::read_all;
+
+    fn ev(src: &str) -> Result<String, EvalError> {
+        let forms = read_all(src).unwrap();
+        let mut it = Interp::new(vec![]);
+        let mut last = V::Unspec;
+        let env = Env::empty();
+        for f in &forms {
+            last = it.eval(f, &env)?;
+        }
+        Ok(display_string(&last))
+    }
+
+    #[test]
+    fn core_forms() {
+        assert_eq!(ev("(let* ((a 1) (b (+ a 1))) (* a b 3))").unwrap(), "6");
+        assert_eq!(ev("(cond ((= 1 2) 'no) ((member 2 '(1 2 3)) => car) (else 9))").unwrap(), "2");
+        assert_eq!(ev("(case (+ 1 2) ((1 2) \"low\") ((3 4) \"mid\") (else \"hi\"))").unwrap(), "mid");
+        assert_eq!(ev("(let loop ((i 0) (acc 1)) (if (< i 5) (loop (1+ i) (* acc 2)) acc))").unwrap(), "32");
+        assert_eq!(ev("(letrec ((ev? (lambda (n) (if (zero? n) #t (od? (1- n))))) (od? (lambda (n) (if (zero? n) #f (ev? (1- n)))))) (ev? 10))").unwrap(), "#t");
+        assert_eq!(ev("((lambda (x) (define y (* x 2)) (define (f z) (+ z y)) (f 1)) 5)").unwrap(), "11");
+        assert_eq!(ev("(map (lambda (x) (* x x)) (list 1 2 3))").unwrap(), "(1 4 9)");
+        assert_eq!(ev("(string-join (map number->string '(1 2 3)) \",\")").unwrap(), "1,2,3");
+        assert_eq!(ev("(format #f \"~a-~d-~o~%\" \"x\" 10 8)").unwrap(), "x-10-10\n");
+        assert_eq!(ev("(quotient 7 2)").unwrap(), "3");
+        assert_eq!(ev("(and 1 2 #f 3)").unwrap(), "#f");
+        assert_eq!(ev("(or #f #f)").unwrap(), "#f");
+        assert!(matches!(ev("(set! x 1)"), Err(EvalError::Unmodelled(_))));
+        assert!(matches!(ev("(UNIMPLEMENTED)"), Err(EvalError::Unbound(_))));
+        assert!(matches!(ev("(format #f \"~q\" 1)"), Err(EvalError::Format(_))));
+        assert!(matches!(ev("(format #f \"~a\")"), Err(EvalError::Format(_))));
+        assert!(matches!(ev("(format #f \"x\" 1)"), Err(EvalError::Format(_))));
+        assert!(matches!(ev("(let ((m (make-mutex))) (with-mutex m (with-mutex m 1)))"), Err(EvalError::Deadlock(_))));
+    }
 }
